@@ -416,6 +416,34 @@ func (w *World) Run(shard int, c *Call) *StepResult {
 	return r
 }
 
+// Probe executes a call and then undoes every effect (accounts of the shard, the in-flight bag, ids).
+// With f != nil the dependency calls are counted / made to fail by f.
+func (w *World) Probe(shard int, c *Call, f *Faults) *StepResult {
+	return w.ProbeWith(shard, c, f, nil)
+}
+
+// ProbeWith is Probe with a callback that sees the world before the effects are undone.
+func (w *World) ProbeWith(shard int, c *Call, f *Faults, after func(r *StepResult)) *StepResult {
+	s := w.Shards[shard]
+	snap := s.Snapshot()
+	msgs := w.Msgs
+	w.Msgs = append([]*Msg(nil), msgs...)
+	next := w.NextID
+	oldF := s.Faults
+	oldCalls := s.Oracle.Calls
+	s.Faults = f
+	r := w.Run(shard, c.Clone())
+	if after != nil {
+		after(r)
+	}
+	s.Faults = oldF
+	s.Oracle.Calls = oldCalls
+	s.Restore(snap)
+	w.Msgs = msgs
+	w.NextID = next
+	return r
+}
+
 // IsTokenFn reports whether fn is one of the three transfer functions.
 func IsTokenFn(fn string) bool {
 	return fn == "ESDTTransfer" || fn == "ESDTNFTTransfer" || fn == "MultiESDTNFTTransfer"
